@@ -34,6 +34,9 @@ ASSUMED = {
     "str.join": "c.join(seq) for a one-character c is a function of the sequence; splitting it at c gives the sequence "
                 "back when it is non-empty and no element contains c",
     "str.strip": "str.strip is an uninterpreted per-string function unless the string is concrete",
+    "pathlib relations": "Path.resolve() is a total function of the path (strict=False); a.samefile(b) and "
+                         "a.is_relative_to(b) are reflexive relations of the two paths, samefile is symmetric (and does not raise "
+                         "on existing paths); a.relative_to(b) raises ValueError iff not a.is_relative_to(b)",
     "pathlib (pure paths)": "a path is an opaque value with .parent / .stem / .name / .parts as uninterpreted functions; "
                             "Path(p) of a path is that path; nothing about the file system is modelled",
 }
@@ -194,7 +197,7 @@ class Lib:
         if name == "Fraction":
             return isinstance(v, V.FractionV)
         if name in ("Path", "PurePath"):
-            return isinstance(v, V.Opaque) and v.what.startswith("path")
+            return isinstance(v, V.PathV) or (isinstance(v, V.Opaque) and v.what.startswith("path"))
         if name in ("bytes", "bytearray", "memoryview"):
             if isinstance(v, V.BytesV):
                 return name == ("bytearray" if v.mutable else "bytes")
@@ -1031,6 +1034,8 @@ class Lib:
         return PyList([(i + start, x) for i, x in enumerate(items)])
 
     def bi_zip(self, ctx, *its):
+        if len(its) == 2 and isinstance(its[0], V.PairProduct) and isinstance(its[1], V.RepeatV):
+            return V.ZipPairsRepeat(its[0], its[1])
         lists = [self.e.iter_concrete(ctx, i) for i in its]
         return PyList([tuple(t) for t in zip(*lists)])
 
@@ -1042,6 +1047,9 @@ class Lib:
 
     def bi_filter(self, ctx, fn, it):
         from .loops import filter_iter
+
+        if isinstance(it, V.ZipPairsRepeat):
+            return V.LazyFilter(fn, it)
 
         return filter_iter(self.e, ctx, fn, it)
 
@@ -1062,7 +1070,72 @@ class Lib:
             return it
         raise EngineLimit("iter(%r)" % (it,))
 
+    def find_first(self, ctx, lf, default):
+        """next(filter(pred, zip(product(A, B), repeat(cell))), default): either no pair satisfies the predicate (the
+        predicate is summarised for an arbitrary pair; it must not change `cell` on a path where it rejects) and the default
+        is returned, or SOME satisfying pair is returned - which one is the first depends on the iteration order of the
+        sets, so an arbitrary satisfying pair over-approximates it - together with the shared `cell` as the predicate left
+        it for that pair."""
+        from .loops import summarise_block, Binding, mk_forall
+        from .symexec import PathEnd
+
+        src = lf.src
+        if not (isinstance(src, V.ZipPairsRepeat) and isinstance(src.rep.item, PyList)):
+            raise EngineLimit("next(filter(...)) over %r" % (src,))
+        A, B = src.prod.a, src.prod.b
+        cell = src.rep.item
+        if any(not isinstance(x, (int, bool, str)) for x in cell.items):
+            raise EngineLimit("find-first with a non-literal shared cell")
+        e = self.e
+        if ctx.choose(2) == 0:
+            a = ctx.fresh("first.a", A.elem_sort)
+            b = ctx.fresh("first.b", B.elem_sort)
+            ctx.assume(z3.And(z3.Select(A.term, a), z3.Select(B.term, b)))
+            elem = ((self.wrap_elem(A, a), self.wrap_elem(B, b)), cell)
+            r = e.call(ctx, lf.fn, [elem], {})
+            if not ctx.decide(lift(e, ctx, e.truth(ctx, r))):
+                raise PathEnd()
+            return elem
+        ctx.counter += 1
+        a = z3.Const("pair.a!%d" % ctx.counter, A.elem_sort)
+        b = z3.Const("pair.b!%d" % ctx.counter, B.elem_sort)
+        guards = [z3.Select(A.term, a), z3.Select(B.term, b)]
+        bind = Binding(None, guards, [a, b], list(guards))
+        before = list(cell.items)
+
+        def run():
+            copy = PyList(list(before))
+            r = e.call(ctx, lf.fn, [((self.wrap_elem(A, a), self.wrap_elem(B, b)), copy)], {})
+            if ctx.decide(lift(e, ctx, e.truth(ctx, r))):
+                raise PathEnd()  # this pair satisfies the predicate: not a path of "no pair does"
+            if copy.items != before:
+                raise EngineLimit("the predicate of a find-first changes shared state on a path where it rejects")
+
+        normal = summarise_block(e, ctx, bind, run, lambda: None)
+        va, vb = z3.FreshConst(A.elem_sort, "a"), z3.FreshConst(B.elem_sort, "b")
+        sub = [(a, va), (b, vb)]
+        body = z3.substitute(z3.Or(*normal) if normal else z3.BoolVal(False), *sub)
+        g = z3.And(*[z3.substitute(x, *sub) for x in guards])
+        ctx.assume(mk_forall([va, vb], z3.Implies(g, body),
+                             patterns=[z3.MultiPattern(*[z3.substitute(x, *sub) for x in guards])]))
+        return default
+
+    @staticmethod
+    def wrap_elem(s, term):
+        return V.PathV(term) if s.elem_sort == V.PathSort else term
+
+    def bi_itertools_repeat(self, ctx, item, times=None):
+        if times is not None:
+            raise EngineLimit("itertools.repeat with a count")
+        return V.RepeatV(item)
+
+    bi_repeat = bi_itertools_repeat
+
     def bi_next(self, ctx, it, *default):
+        if isinstance(it, V.LazyFilter):
+            if not default:
+                raise EngineLimit("next(filter(...)) without a default")
+            return self.find_first(ctx, it, default[0])
         if isinstance(it, V.ConcreteIter):
             if it.pos < len(it.items):
                 it.pos += 1
@@ -1253,6 +1326,8 @@ class Lib:
         raise EngineLimit("round of a symbolic value")
 
     def bi_itertools_product(self, ctx, *args):
+        if len(args) == 2 and all(isinstance(x, SymSet) and x.elem_sort != z3.IntSort() for x in args):
+            return V.PairProduct(args[0], args[1])
         if len(args) == 1 and isinstance(args[0], V.StarArgs):
             return V.Product(args[0].seq)
         return V.Product(PyList(list(args)))
@@ -1314,6 +1389,9 @@ class Lib:
     def bi_pathlib_Path(self, ctx, p):
         if isinstance(p, V.PathV):
             return p
+        if isinstance(p, str) or (isinstance(p, z3.ExprRef) and z3.is_string(p)):
+            # ASSUMED: Path(s) is a function of the string (pure path construction; no file-system access)
+            return V.PathV(self.e.uf("path!of-str", z3.StringSort(), V.PathSort)(V.Str.unwrap(p)))
         raise EngineLimit("Path(%r)" % (p,))
 
     bi_Path = bi_pathlib_Path
@@ -1322,6 +1400,8 @@ class Lib:
     def path_attr(self, ctx, o, name):
         if name in getattr(o, "attrs", {}):
             return o.attrs[name]
+        if name in ("resolve", "samefile", "relative_to", "is_relative_to"):
+            return V.Builtin("method." + name, bound=o)
         P, S, I_ = V.PathSort, z3.StringSort(), z3.IntSort()
         if name == "parent":
             return V.PathV(self.e.uf("path!parent", P, P)(o.term))
@@ -1364,6 +1444,8 @@ class Lib:
 
         if isinstance(o, _sm.RegexV):
             return "regex"
+        if isinstance(o, V.PathV):
+            return "path"
         if isinstance(o, V.GroupSlot):
             return "groupslot"
         if isinstance(o, V.GroupDict):
@@ -1547,6 +1629,35 @@ class Lib:
         for x in xs[1:]:
             acc = z3.Concat(acc, V.Str.unwrap(o), V.Str.unwrap(x))
         return acc
+
+    # ASSUMED contracts of pathlib (the file system is not modelled): uninterpreted relations over pure path values
+    def m_path_resolve(self, ctx, o, strict=False):
+        return V.PathV(self.e.uf("path!resolve", V.PathSort, V.PathSort)(o.term))
+
+    def _path_rel(self, ctx, name, a, b, symmetric=False):
+        f = self.e.uf(name, V.PathSort, V.PathSort, z3.BoolSort())
+        p, q = z3.Const("p!refl", V.PathSort), z3.Const("q!sym", V.PathSort)
+        ctx.add_axiom(z3.ForAll([p], f(p, p), patterns=[f(p, p)]))  # a path is the same file as / relative to itself
+        if symmetric:
+            ctx.add_axiom(z3.ForAll([p, q], f(p, q) == f(q, p), patterns=[f(p, q)]))  # "the same file" is symmetric
+        return f(a.term, b.term)
+
+    def m_path_samefile(self, ctx, o, other):
+        if not isinstance(other, V.PathV):
+            raise EngineLimit("samefile(%r)" % (other,))
+        return self._path_rel(ctx, "path!samefile", o, other, symmetric=True)
+
+    def m_path_is_relative_to(self, ctx, o, other):
+        if not isinstance(other, V.PathV):
+            raise EngineLimit("is_relative_to(%r)" % (other,))
+        return self._path_rel(ctx, "path!is-relative-to", o, other)
+
+    def m_path_relative_to(self, ctx, o, other):
+        if not isinstance(other, V.PathV):
+            raise EngineLimit("relative_to(%r)" % (other,))
+        if ctx.decide(z3.Not(self._path_rel(ctx, "path!is-relative-to", o, other))):
+            raise self.raise_ext("ValueError", "relative_to: not a sub-path")
+        return V.PathV(self.e.uf("path!relative", V.PathSort, V.PathSort, V.PathSort)(o.term, other.term))
 
     def m_str_isascii(self, ctx, o):
         if isinstance(o, str):
